@@ -11,7 +11,7 @@ def run(tier):
     q = tier == "quick"
     to = 900 if q else 3000
     conds = []
-    for spec, nch in (("dep", 4), ("twice", 4), ("nested", 2)):
+    for spec, nch in (("dep", 4), ("twice", 4), ("nested", 2), ("overflow", 2)):
         env = {"H_SPEC": spec, "H_CHOICES": str(nch)}
         conds.append(Cond("h_generators.py", "fields_follow_generators", to, path_timeout=to / 2, env=env))
         for which in range(2 if q else 6):
@@ -23,14 +23,15 @@ def run(tier):
                    "derive_generator_output/generator_dependencies", "DerivationTree.replace/replace_multiple/get_choices_path/set_all_read_only",
                    "Grammar.parse (of the generated value)"]
     run.extra["source_sha256_16"] = source_fingerprint(FILES)
-    run.bounds = {"specs": "4: generator with two distinct symbol arguments, generator mentioning one symbol twice, nested generated argument, "
+    run.bounds = {"specs": "5: generator with two distinct symbol arguments, generator mentioning one symbol twice, nested generated argument, a dependent "
+                           "generator whose re-run value can leave the language of its rule (must raise, not keep the old text), "
                            "stub generator returning a symbolic string (len <= 2 over {0,1,a})",
                   "draws": "every random draw of Grammar.fuzz symbolic (values 0..2)", "operator": "replace() of ANY nonterminal node (sources included) by any "
                            "same-symbol subtree of 3 other trees (first 2 candidates in quick tier, 6 in thorough)"}
     run.outside = ["random generators (random module inside generator code)", "crossover/mutation wrappers around replace() (they only choose the nodes)",
                    "specs with converters (inverse generators)", "longer operator histories"]
     run.assumptions = ["the harness re-implements each spec's generator in Python to recompute the expected text from the recorded .sources",
-                       "replace() raising FandangoValueError / KeyError counts as 'refused' (input must be unchanged)", "CrossHair + plug-in conformance gate"]
+                       "replace() raising FandangoValueError / KeyError / FandangoParseError counts as 'refused' (input must be unchanged)", "CrossHair + plug-in conformance gate"]
     return run.finish(
         "Bounded symbolic execution of generation and subtree replacement on specs with generators: every generator-defined field equals the "
         "generator applied to the arguments recorded with the tree, its children are read-only, read-only nodes are never replaced, inputs are never "
